@@ -217,8 +217,38 @@ pub fn run_main(
         let name = v["instance"].as_str().unwrap().to_string();
         let check = v["check"].as_str().unwrap().to_string();
         let mut model = Model::new();
-        for (k, val) in v["model"].as_object().unwrap() {
-            model.insert(k.clone(), val.as_str().unwrap().to_string());
+        if let Some(obj) = v["model"].as_object() {
+            for (k, val) in obj {
+                model.insert(k.clone(), val.as_str().unwrap().to_string());
+            }
+        }
+        if let Some(ds) = v["decisions"].as_array() {
+            // a hang report: the inputs are reconstructed from the decisions taken before the path stopped coming back.
+            // "(= name v)" true fixes name = v; only false ones mean the value after the last one asked (Pick asks 0, 1, 2, ...);
+            // any other literal is a Boolean input.
+            let mut falses: std::collections::BTreeMap<String, i64> = Default::default();
+            for d in ds {
+                let lit = d[0].as_str().unwrap_or("").to_string();
+                let b = d[1].as_bool().unwrap_or(false);
+                if let Some(rest) = lit.strip_prefix("(= ") {
+                    let parts: Vec<&str> = rest.trim_end_matches(')').split(' ').collect();
+                    if parts.len() == 2 {
+                        if let Ok(val) = parts[1].parse::<i64>() {
+                            if b {
+                                model.insert(parts[0].to_string(), val.to_string());
+                            } else {
+                                let e = falses.entry(parts[0].to_string()).or_insert(-1);
+                                *e = (*e).max(val);
+                            }
+                            continue;
+                        }
+                    }
+                }
+                model.insert(lit, if b { "true".into() } else { "false".into() });
+            }
+            for (k, mx) in falses {
+                model.entry(k).or_insert((mx + 1).to_string());
+            }
         }
         let mut all = make(&tier, seed);
         if !all.iter().any(|h| h.name() == name) {
@@ -248,6 +278,27 @@ pub fn run_main(
         return;
     }
     let budget = args.budget.unwrap_or(if args.tier == "thorough" { 2_000_000 } else { 40_000 });
+    // watchdog: a path that has not come back for 5 minutes (the engine's own limits act after 90 s of *symbolic* work, so this
+    // is concrete code under test looping without asking the solver anything) ends the run with exit code 4 and a hang report
+    // next to --out; bin/check replays the report in a fresh process under a time limit and reports the violation.
+    {
+        let (prop, tier, seed, outp) = (property.to_string(), args.tier.clone(), args.seed, args.out.clone());
+        std::thread::spawn(move || loop {
+            std::thread::sleep(std::time::Duration::from_secs(5));
+            let stuck = {
+                let c = crate::engine::PATH_CLOCK.lock().unwrap();
+                c.iter().find(|e| e.2.map_or(false, |t| t.elapsed().as_secs() >= 300)).map(|e| (e.1.clone(), e.3.clone()))
+            };
+            if let Some((inst, decisions)) = stuck {
+                let rep = json!({"property": prop, "tier": tier, "seed": seed, "instance": inst, "check": "terminates",
+                                 "decisions": decisions.iter().map(|d| json!([d.0, d.1])).collect::<Vec<_>>()});
+                let path = format!("{}.hang", outp.clone().unwrap_or_else(|| "symx".into()));
+                let _ = std::fs::write(&path, serde_json::to_string_pretty(&rep).unwrap());
+                eprintln!("HANG instance={} report={}", inst, path);
+                std::process::exit(4);
+            }
+        });
+    }
     let next = AtomicUsize::new(0);
     let results: Mutex<Vec<(usize, Value)>> = Mutex::new(vec![]);
     let final_queries: Mutex<Vec<String>> = Mutex::new(vec![]);
@@ -260,6 +311,7 @@ pub fn run_main(
                     break;
                 }
                 let h = &instances[i];
+                crate::engine::set_instance_name(&h.name());
                 let cfg = Config { pin: None, budget_paths: budget, panic_is_violation: Some("no_panic".into()) };
                 let st = h.run(&cfg);
                 let mut reps = vec![];
